@@ -65,11 +65,14 @@ def strategy(name, maxlen):
     raw = st.sampled_from(gen.seeds(name))
     base = st.one_of(valid, raw)
     nm = gen.near_misses(name)
-    strs = [gen.edits(base), gen.edits(base), gen.edits(base), gen.decorations(name, valid),
+    strs = [gen.edits(base), gen.edits(base), gen.edits(base), gen.newline_edits(base), gen.decorations(name, valid),
             gen.edits(gen.decorations(name, valid)), st.text(max_size=40), gen.long_text(maxlen),
             st.text(alphabet=st.sampled_from(list('0123456789ABCXZ -.') + gen.CONTROLS[:3]), max_size=30)]
     if nm:
         strs.append(gen.edits(st.sampled_from(nm)))
+    extra = gen.extra_valid(name)
+    if extra is not None:
+        strs += [extra, gen.edits(extra)]
     value = st.one_of(st.one_of(*strs).map(core.enc), st.one_of(*strs).map(core.enc), st.one_of(*strs).map(core.enc),
                       st.one_of(*strs).map(core.enc), gen.nonstrings(base))
     return st.fixed_dictionaries({'mod': st.just(name), 'value': value, 'opts': gen.option_strategy(name),
@@ -81,6 +84,32 @@ def shard(a):
     name = a['mod']
     core.drive(prop, strategy(name, a['maxlen']), a['n'], (a['seed'], 'C01', name), res,
                shrink_skip=a['known'], shrink=True)
+    extra = gen.extra_valid(name)
+    if extra is not None:
+        # registry-walking generator: reach every branch of the registry the module consumes
+        strat = st.fixed_dictionaries({'mod': st.just(name), 'value': st.one_of(extra, gen.decorations(name, extra)).map(core.enc),
+                                       'opts': st.just({}), 'clock': st.none()})
+        core.drive(prop, strat, a['n'] * 3, (a['seed'], 'C01', 'extra', name), res, shrink_skip=a['known'], shrink=True)
+    # systematic sweep: every position of a few valid numbers x a set of suspicious characters (substituted and inserted);
+    # this is what reaches a character class that was widened in one position of one pattern
+    import random
+    rnd = random.Random(core.subseed(a['seed'], 'C01', 'sweep', name))
+    nums = gen.pool(name)
+    picks = nums[:1] + (rnd.sample(nums[1:], min(a['nsweep'] - 1, len(nums) - 1)) if len(nums) > 1 else [])
+    seeds = gen.accepted_seeds(name)
+    if seeds:
+        picks.append(rnd.choice(seeds))
+    before = res.evals
+    for v in picks:
+        if len(v) > 40:
+            continue
+        for i in range(len(v) + 1):
+            for c in gen.SUSPICIOUS:
+                if i < len(v):
+                    prop({'mod': name, 'value': core.enc(v[:i] + c + v[i + 1:]), 'opts': {}, 'clock': None}, res)
+                if i % 2 == 0 or i >= len(v) - 1:
+                    prop({'mod': name, 'value': core.enc(v[:i] + c + v[i:]), 'opts': {}, 'clock': None}, res)
+    res.hist['sweep-cases'] += res.evals - before
     res.notes['cases_per_module'] = {name: res.evals}
     return res
 
@@ -88,7 +117,7 @@ def shard(a):
 def run(ctx):
     mods = core.number_modules()
     n = ctx.q(300, 5000)
-    args = [{'shard': name, 'mod': name, 'n': n, 'seed': ctx.seed, 'maxlen': ctx.q(6000, 60000),
+    args = [{'shard': name, 'mod': name, 'n': n, 'seed': ctx.seed, 'maxlen': ctx.q(6000, 60000), 'nsweep': ctx.q(3, 12),
              'known': ctx.known_buckets} for name in mods]
     # heavy modules last is fine; sort by name for determinism
     res = core.run_shards(shard, args)
